@@ -107,8 +107,9 @@ pub fn run(ctx: &Ctx) {
                     if !ok {
                         ctx.violation(concat!("fixint-both-", stringify!($t)), format!("bytes {}", hex(out)), $order, json!({"type": stringify!($t), "value": x.to_string()}));
                     }
+                    // only the two fixint fields are this property's concern (the varint field in the middle is C01's)
                     match postcard::from_bytes::<$both>(out) {
-                        Ok(back) if back == v => {}
+                        Ok(back) if back.b == v.b && back.l == v.l => {}
                         other => ctx.violation(concat!("fixint-both-", stringify!($t)), format!("decoded {:?}", other), $order, json!({"type": stringify!($t), "value": x.to_string()})),
                     }
                 }
